@@ -91,18 +91,56 @@ def variants(name, cls, desc):
     raise RuntimeError(f"no argument variants for constructor {name}({params})")
 
 
+OBS_PARAM = {"on()": "state", "value()": "value", "value(torch.float)": "float_value",
+             "value(torch.double)": "double_value", "value(torch.half)": "half_value",
+             "num_probe_vectors()": "num_probe_vectors"}
+
+
 class World:
-    def __init__(self, tr, exported):
+    """The real classes, discovered REFLECTIVELY (no dependence on the translator): class fields = non-callable
+    class attributes with a leading underscore, constructor parameters from the signature, observers by name.
+    The translator's tables (`tr`) are only used to encode programs for the Lean driver."""
+
+    def __init__(self, tr=None, exported=None):
+        import inspect
+        import gpytorch.settings as S
+        import gpytorch.beta_features as B
         self.tr = tr
         self.real = _real_classes()
-        self.descs = {tr.descs[k]["name"]: tr.descs[k] for k in tr.order}
-        self.names = [tr.descs[k]["name"] for k in tr.order]
-        self.exported = list(exported)
-        self.atoms = list(tr.T.atom)
+        self.names = list(self.real)
+        self.exported = [n for n in list(S.__all__) + list(B.__all__) if isinstance(self.real.get(n), type)]
+        self.descs = {}
+        for n, cls in self.real.items():
+            fields = {}
+            for k in dir(cls):
+                if k.startswith("_") and not k.startswith("__"):
+                    v = inspect.getattr_static(cls, k)
+                    if not callable(v) and not isinstance(v, (classmethod, staticmethod, property)):
+                        fields[k] = getattr(cls, k)
+            params = [(p.name, None) for p in list(inspect.signature(cls.__init__).parameters.values())[1:]
+                      if p.kind in (p.POSITIONAL_OR_KEYWORD, p.KEYWORD_ONLY)]
+            obs = {}
+            if hasattr(cls, "on"):
+                obs["on()"] = None
+            if hasattr(cls, "value"):
+                sig = inspect.signature(cls.value)
+                if "dtype" in sig.parameters:
+                    for t in ("float", "double", "half"):
+                        obs[f"value(torch.{t})"] = None
+                else:
+                    obs["value()"] = None
+            if hasattr(cls, "num_probe_vectors"):
+                obs["num_probe_vectors()"] = None
+            self.descs[n] = {"fields": fields, "params": params, "observers": obs}
+        self.atoms = list(tr.T.atom) if tr is not None else ["None"]
         self.slots = [(n, f) for n in self.names for f in self.descs[n]["fields"]]
-        missing = [n for n in self.names if n not in self.real]
-        if missing:
-            raise RuntimeError(f"translated classes not importable: {missing}")
+        if tr is not None:
+            # the model's slots, in the driver's dump order
+            self.model_names = [tr.descs[k]["name"] for k in tr.order]
+            self.model_slots = [(tr.descs[k]["name"], f) for k in tr.order for f in tr.descs[k]["fields"]]
+            missing = [sl for sl in self.model_slots if sl not in self.slots]
+            if missing:
+                raise RuntimeError(f"translated class fields not found on the real classes: {missing[:5]}")
 
     def atom(self, v):
         if v is None:
@@ -114,6 +152,11 @@ class World:
 
     def snapshot(self):
         return tuple(self.atom(getattr(self.real[n], f)) for n, f in self.slots)
+
+    def project(self, snap):
+        """restrict a reflective snapshot to the model's slots (driver order)"""
+        d = dict(zip(self.slots, snap))
+        return tuple(d[sl] for sl in self.model_slots)
 
     def raw(self):
         return {(n, f): getattr(self.real[n], f) for n, f in self.slots}
@@ -168,8 +211,8 @@ def show(prog):
     return "; ".join(out)
 
 
-def run_real(w, prog, trace, inner_checks):
-    """Executes on the real classes; returns True if an exception escaped."""
+def run_real(w, prog, trace, inner_checks, strict=False):
+    """Executes on the real classes (strict: warnings escalated to exceptions, like `python -W error`)."""
     import warnings
     for it in prog:
         if it == "P":
@@ -179,16 +222,15 @@ def run_real(w, prog, trace, inner_checks):
         else:
             _, n, kw, body = it
             with warnings.catch_warnings():
-                warnings.simplefilter("ignore")
+                warnings.simplefilter("error" if strict else "ignore")
                 cm = w.real[n](**kw)   # may raise ValueError: nothing entered
                 with cm:
                     # spec oracle (innermost wins): observers show the arguments right after entry
-                    from translate.g1_settings import OBS_PARAM
                     for oname, fn in w.observers(n).items():
                         pn = OBS_PARAM.get(oname)
                         if pn in kw and kw[pn] is not None:
                             inner_checks.append((n, oname, canon(fn()), canon(kw[pn])))
-                    run_real(w, body, trace, inner_checks)
+                    run_real(w, body, trace, inner_checks, strict)
                     # … and again after the nested program finished normally
                     for oname, fn in w.observers(n).items():
                         pn = OBS_PARAM.get(oname)
@@ -231,27 +273,47 @@ def programs(w, tier, rng):
 
 def correspondence(ctx, want_driver=True):
     sys.path.insert(0, os.path.join(C.VERIF, "harness"))
-    if "tr" not in _state:
-        # translator broke: fall back to the committed baseline tables only for naming the real classes
-        from translate import g1_settings
-        raise RuntimeError("translator output unavailable; correspondence needs the class table")
-    w = World(_state["tr"], _state["exported"])
+    w = World(_state.get("tr"), _state.get("exported"))
+    if w.tr is None:
+        want_driver = False   # translator broke: the spec oracle below still runs on the real classes
     rng = ctx.rng("programs")
     base_raw = w.raw()
     base = w.snapshot()
     lines, recs = [], []
     kinds = {}
-    for prog in programs(w, ctx.tier, rng):
+    # classes whose construction / entry / exit emits a warning (found by running them once)
+    import warnings as _w
+    warners = set()
+    for n in w.exported:
+        for kw in variants(n, w.real[n], w.descs[n])[:1]:
+            with _w.catch_warnings(record=True) as rec:
+                _w.simplefilter("always")
+                try:
+                    with w.real[n](**kw):
+                        pass
+                except Exception:
+                    pass
+            if rec:
+                warners.add(n)
+    ctx.notes["classes_that_warn"] = sorted(warners)
+    w.restore(base_raw)   # the probing above may itself have leaked (known finding): start from the pristine state
+
+    def both_modes():
+        for prog in programs(w, ctx.tier, rng):
+            yield False, prog
+            if any(it[1] in warners for it in _walk(prog)):
+                yield True, prog   # same program with warnings escalated to exceptions
+    for strict, prog in both_modes():
         trace, inner = [], []
         raised = False
         try:
-            run_real(w, prog, trace, inner)
+            run_real(w, prog, trace, inner, strict)
         except _Boom:
             raised = True
-        except ValueError:
+        except (ValueError, Warning):
             raised = True
         final = w.snapshot()
-        text = show(prog)
+        text = ("[-W error] " if strict else "") + show(prog)
         nontriv = any(t != base for t in trace)
         ctx.case(text, nontrivial=nontriv, sample={"program": text, "raised": raised})
         for n in {it[1] for it in _walk(prog)}:
@@ -262,14 +324,15 @@ def correspondence(ctx, want_driver=True):
                 if a != b:
                     ctx.fail(f"leak:{n}.{f}", f"after `{text}` {n}.{f} is {w.atoms[int(b)] if b != 'N' else None!r}, "
                              f"was {w.atoms[int(a)] if a != 'N' else None!r} before the block",
-                             {"program": text, "tokens": encode(w, prog), "field": f"{n}.{f}"})
+                             {"program": text, "strict": strict, "field": f"{n}.{f}"})
             w.restore(base_raw)
         for n, oname, got, want in inner:
             if got != want:
                 ctx.fail(f"innermost:{n}.{oname}", f"inside `{text}` {n}.{oname} shows {got}, argument was {want}",
                          {"program": text, "observer": oname})
-        lines.append(encode(w, prog))
-        recs.append((text, raised, final, trace))
+        if want_driver:
+            lines.append(("S " if strict else "L ") + encode(w, prog))
+            recs.append((text, raised, w.project(final), [w.project(t) for t in trace]))
     # --- spec oracle: outside all blocks every setting reports its documented default (docstring of the real class)
     import ast as _ast
     import re as _re
@@ -314,7 +377,7 @@ def correspondence(ctx, want_driver=True):
                 key = "model-mismatch"
                 try:
                     rf = rep.split(";")[1][len("final="):].split(",")
-                    d = [w.slots[i] for i, (a, b) in enumerate(zip(rf, final)) if a != b]
+                    d = [w.model_slots[i] for i, (a, b) in enumerate(zip(rf, final)) if a != b]
                     if d:
                         key = f"model-mismatch:{d[0][0]}.{d[0][1]}"
                 except Exception:
@@ -332,81 +395,29 @@ def _walk(prog):
 
 
 def search(ctx, broken):
-    """The proof or the tie broke: the spec oracle in `correspondence` does not depend on the model, so a
-    failing input is whatever it reports; when the translator itself failed we still need class tables —
-    rebuild them from the committed baseline of Gen (names only) is not possible, so import reflectively."""
-    if ctx.failures:
+    """The proof or the tie broke.  The spec oracle inside `correspondence` is independent of the model and of
+    the translator (the real classes are discovered reflectively), so it has already run over the full program
+    set; if it reported nothing, deepen once with the thorough program set."""
+    if ctx.failures or ctx.tier == "thorough":
         return
-    if "tr" not in _state:
-        _reflective_search(ctx)
-        return
+    ctx.tier = "thorough"
     try:
         correspondence(ctx, want_driver=False)
-    except Exception:
-        _reflective_search(ctx)
-
-
-def _reflective_search(ctx):
-    """No translator output: enumerate the real classes reflectively and test restore-on-exit directly."""
-    import inspect
-    import torch
-    real = _real_classes()
-    rng = ctx.rng("reflective")
-
-    def fields(cls):
-        return {k: getattr(cls, k) for k in dir(cls)
-                if k.startswith("_") and not k.startswith("__") and not callable(getattr(cls, k))}
-    for n, cls in real.items():
-        try:
-            sig = inspect.signature(cls.__init__)
-        except (TypeError, ValueError):
-            continue
-        params = [p for p in sig.parameters if p != "self"]
-        cands = []
-        if params == ["state"]:
-            cands = [{"state": True}, {"state": False}]
-        elif params == ["value"]:
-            cands = [{"value": "mask"}] if n == "observation_nan_policy" else [{"value": 7}]
-        else:
-            for p in params:
-                cands.append({p: 0.5 if "value" in p else (torch.float if p in ("default", "symeig", "cholesky") else False)})
-            if n == "fast_pred_var":
-                cands = [{"state": True, "num_probe_vectors": 5}]
-        for kw in cands:
-            for do_raise in (False, True):
-                before = {m: fields(c) for m, c in real.items()}
-                try:
-                    with cls(**kw):
-                        if do_raise:
-                            raise _Boom()
-                except _Boom:
-                    pass
-                except Exception:
-                    continue
-                after = {m: fields(c) for m, c in real.items()}
-                ctx.case(f"reflective {n}({kw}) raise={do_raise}")
-                for m in before:
-                    for f in before[m]:
-                        if f == "probe_vectors":
-                            continue
-                        if canon(before[m][f]) != canon(after[m].get(f)):
-                            ctx.fail(f"leak:{m}.{f}", f"after `with {n}({kw})` (raise={do_raise}) {m}.{f} is "
-                                     f"{after[m].get(f)!r}, was {before[m][f]!r}", {"class": n, "kwargs": repr(kw)})
-                            setattr(real[m], f, before[m][f])
+    finally:
+        ctx.tier = "quick"
 
 
 def replay(ctx, payload):
     """Re-run one recorded program on the real classes; True when it no longer fails."""
-    generate(ctx)
-    w = World(_state["tr"], _state["exported"])
-    toks = payload["case"]["tokens"].split()
-    # decode back through the atom table is lossy for new atoms; replays re-run the enumerator and match text
+    w = World()
+    want = payload["case"]["program"].replace("[-W error] ", "")
+    strict = bool(payload["case"].get("strict"))
     for prog in programs(w, "thorough", ctx.rng("programs")):
-        if show(prog) == payload["case"]["program"]:
+        if show(prog) == want:
             base = w.snapshot()
             try:
-                run_real(w, prog, [], [])
-            except (_Boom, ValueError):
+                run_real(w, prog, [], [], strict)
+            except (_Boom, ValueError, Warning):
                 pass
             return w.snapshot() == base
     return True
